@@ -193,6 +193,43 @@ func c15(c *Ctx) {
 		r.Check(len(f) >= 1 && !bad, "PATH", fkey(tf)+"/only-labelled-roots", c.Pos(tf.Pos()), "true only for quotas labelled is-root=true", sprintf("IsTreeRootQuota can return true for a quota without the is-root label (%d label tests recognised): such a quota skips the check that its children's mins sum to at most its own min", len(f)))
 	}
 
+	// ---- the admission entry hands every update to the topology
+	r.Rule("PATH(entry): in QuotaMetaChecker.ValidateQuota, for an UPDATE whose old object decodes, no return is reachable without ValidUpdateQuota (no class of update - e.g. of an object that is being deleted but still exists - is admitted unvalidated and unrecorded); CREATE reaches ValidAddQuota and DELETE ValidDeleteQuota")
+	if vq := c.Fn(quotaWebhookPkg, "QuotaMetaChecker", "ValidateQuota"); vq != nil {
+		for _, opx := range []struct{ op, want string }{{"UPDATE", "ValidUpdateQuota"}, {"CREATE", "ValidAddQuota"}, {"DELETE", "ValidDeleteQuota"}} {
+			f := an.Facts{}
+			n := 0
+			for _, b := range vq.Blocks {
+				for _, in := range b.Instrs {
+					switch x := in.(type) {
+					case *ssa.BinOp:
+						if x.Op != token.EQL && x.Op != token.NEQ {
+							continue
+						}
+						if str, isC := constString(x.Y); isC && (str == "UPDATE" || str == "CREATE" || str == "DELETE" || str == "CONNECT") {
+							eq := str == opx.op
+							if (x.Op == token.EQL) == eq {
+								f[x] = an.True
+							} else {
+								f[x] = an.False
+							}
+							n++
+						}
+					case *ssa.Call:
+						if an.ShortCallee(&x.Call) == "Decode" && isErrorType(x.Type()) {
+							f[x] = an.Nil
+						}
+					}
+				}
+			}
+			reach := an.Explore(vq, nil, f, func(in ssa.Instruction) bool {
+				cl, ok := in.(ssa.CallInstruction)
+				return ok && an.ShortCallee(cl.Common()) == opx.want
+			})
+			r.Check(n >= 1 && len(reach.Returns()) == 0, "PATH", fkey(vq)+"/"+opx.op+"=>"+opx.want, c.Pos(vq.Pos()), "every "+opx.op+" reaches "+opx.want, sprintf("an %s request can be answered without %s (%d returns reachable): it is neither validated nor recorded, and the recorded topology drifts from the admitted objects", opx.op, opx.want, len(reach.Returns())))
+		}
+	}
+
 	// ---- every check on every path
 	r.Rule("PATH: in validateQuotaTopology each of checkIsParentChange, checkTreeID, checkParentQuotaInfo, checkSubAndParentGroupQuotaKey and checkMinQuotaValidate is evaluated on every path to a nil return, except the documented root shortcuts (name == root; parent == root and not a parent)")
 	if vfn := c.Fn(quotaWebhookPkg, "quotaTopology", "validateQuotaTopology"); vfn != nil {
